@@ -17,18 +17,109 @@
 
 namespace vrt {
 
-// Input data in a heap block of exactly n units (optionally n+1 with a NUL).
+#if defined(__SANITIZE_ADDRESS__)
+#define VRT_HAVE_ASAN 1
+#elif defined(__has_feature)
+#if __has_feature(address_sanitizer)
+#define VRT_HAVE_ASAN 1
+#endif
+#endif
+#ifdef VRT_HAVE_ASAN
+extern "C" void __asan_poison_memory_region(void const volatile *addr, size_t size);
+extern "C" void __asan_unpoison_memory_region(void const volatile *addr, size_t size);
+#endif
+
+// Input data in a heap block that ends exactly where the data ends (optionally after one NUL unit), so that reading one unit
+// too many lands in the ASan red zone.  Where the data STARTS varies: in half of the blocks it starts at the address malloc
+// returned (16-byte aligned, red zone right in front of it); in the others 1..15 bytes (whole elements) further in, so that
+// the library also sees sources, needles, separators and format strings that are not 2/4/8/16-byte aligned, as a view into
+// the middle of a user's buffer would be.  The slack in front is poisoned when it is a multiple of the ASan granule and
+// otherwise filled with the data's own elements (an under-read then changes a result instead of going unnoticed).  The
+// choice comes from the per-case placement stream (vrt::placement_next), so a replay reproduces it.
+inline bool &placement_shifts() { static bool on = true; return on; }
+
+// Address reuse.  Under ASan a freed block sits in the quarantine for a long time, so in these runs a new input or object
+// practically never gets the address of a dead one - while in a real program malloc hands the same address out again at
+// once.  State the library keeps across calls and keys by address (a cache of "the last argument", a remembered `this`)
+// would therefore never be stale here.  One release in four of an input block / object block is parked (poisoned, so a
+// late access is still reported) and handed to the next request of the same size, which then holds different content at the
+// same address.
+struct RecyclePool {
+    enum { SLOTS = 61 };
+    void *ptr[SLOTS];
+    size_t size[SLOTS];
+    RecyclePool() { for (int i = 0; i < SLOTS; ++i) { ptr[i] = nullptr; size[i] = 0; } }
+    void *take(size_t bytes)
+    {
+        if (!placement_here() || bytes == 0 || bytes > 8192) return nullptr;
+        const size_t k = bytes % SLOTS;
+        if (ptr[k] && size[k] == bytes) {
+            void *p = ptr[k];
+            ptr[k] = nullptr;
+#ifdef VRT_HAVE_ASAN
+            __asan_unpoison_memory_region(p, bytes);
+#endif
+            static uint64_t &c = counter("placement.blocks_reusing_the_address_of_a_dead_one");
+            ++c;
+            return p;
+        }
+        return nullptr;
+    }
+    // returns true when the block was parked (caller must not free it)
+    bool park(void *p, size_t bytes)
+    {
+        if (!placement_here() || !placement_shifts() || bytes == 0 || bytes > 8192 || (placement_next() & 3) != 0) return false;
+        const size_t k = bytes % SLOTS;
+        if (ptr[k]) {
+#ifdef VRT_HAVE_ASAN
+            __asan_unpoison_memory_region(ptr[k], size[k]);
+#endif
+            free(ptr[k]);
+        }
+        ptr[k] = p;
+        size[k] = bytes;
+#ifdef VRT_HAVE_ASAN
+        __asan_poison_memory_region(p, bytes);
+#endif
+        return true;
+    }
+};
+inline RecyclePool &recycle_pool() { static thread_local RecyclePool *p = new RecyclePool; return *p; }
 template <typename T>
 struct Exact {
     T *p;
     size_t n;
-    Exact(const T *src, size_t count, bool nul = false) : n(count)
+    void *base;
+    size_t shift;       // elements between base and p
+    size_t bytes;       // size of the block
+    Exact(const T *src, size_t count, bool nul = false) : n(count), shift(0)
     {
-        size_t units = count + (nul ? 1 : 0);
-        p = static_cast<T *>(malloc(units * sizeof(T) ? units * sizeof(T) : 1));
-        if (!p) { fprintf(stderr, "vrt: out of memory\n"); _exit(98); }
+        const size_t units = count + (nul ? 1 : 0);
+        if (placement_shifts() && placement_here() && units != 0) {
+            const uint64_t v = placement_next();
+            const size_t maxshift = 16 / sizeof(T) - 1;            // 15 bytes, 7 char16_t, 3 char32_t / wchar_t
+            if ((v & 1) && maxshift) shift = 1 + static_cast<size_t>((v >> 8) % maxshift);
+        }
+        bytes = (shift + units) * sizeof(T);
+        base = recycle_pool().take(bytes);
+        if (!base) base = malloc(bytes ? bytes : 1);
+        if (!base) { fprintf(stderr, "vrt: out of memory\n"); _exit(98); }
+        p = static_cast<T *>(base) + shift;
         if (count) memcpy(p, src, count * sizeof(T));
         if (nul) p[count] = T();
+        for (size_t i = 0; i < shift; ++i)
+            static_cast<T *>(base)[i] = count ? src[(count - 1 - i % count)] : static_cast<T>(0x80);
+#ifdef VRT_HAVE_ASAN
+        if (shift && (shift * sizeof(T)) % 8 == 0) __asan_poison_memory_region(base, shift * sizeof(T));
+#endif
+        if (!placement_here()) {
+        } else if (shift) {
+            static uint64_t &c = counter("placement.inputs_not_16_byte_aligned");
+            ++c;
+        } else {
+            static uint64_t &c = counter("placement.inputs_16_byte_aligned");
+            ++c;
+        }
         // malloc(1) for the empty case: make the single byte unreadable is
         // not possible without poisoning APIs; callers pass n == 0 anyway.
     }
@@ -36,7 +127,13 @@ struct Exact {
     explicit Exact(const S &s, bool nul = false) : Exact(s.data(), s.size(), nul) { }
     Exact(const Exact &) = delete;
     Exact &operator=(const Exact &) = delete;
-    ~Exact() { free(p); }
+    ~Exact()
+    {
+#ifdef VRT_HAVE_ASAN
+        if (shift && (shift * sizeof(T)) % 8 == 0) __asan_unpoison_memory_region(base, shift * sizeof(T));
+#endif
+        if (!recycle_pool().park(base, bytes)) free(base);
+    }
     const T *data() const { return p; }
     size_t size() const { return n; }
 };
@@ -48,7 +145,8 @@ struct Box {
     template <typename... A>
     explicit Box(A &&...a)
     {
-        void *mem = malloc(sizeof(T));
+        void *mem = recycle_pool().take(sizeof(T));
+        if (!mem) mem = malloc(sizeof(T));
         if (!mem) { fprintf(stderr, "vrt: out of memory\n"); _exit(98); }
         try {
             p = new (mem) T(std::forward<A>(a)...);
@@ -59,7 +157,7 @@ struct Box {
     }
     Box(const Box &) = delete;
     Box &operator=(const Box &) = delete;
-    ~Box() { if (p) { p->~T(); free(p); } }
+    ~Box() { if (p) { p->~T(); if (!recycle_pool().park(p, sizeof(T))) free(p); } }
     T &operator*() { return *p; }
     T *operator->() { return p; }
     const T &operator*() const { return *p; }
